@@ -55,7 +55,24 @@ def fixes():
     return "\n".join(rows)
 
 
-gens = {"proof-status": proof_status, "seeded": seeded, "fixes": fixes}
+def refactors():
+    rows = ["| name | what was refactored | result (quick tier, all twenty checks) |", "|---|---|---|"]
+    n = ok = 0
+    for d in sorted((V / "refactors").iterdir()):
+        mp = d / "meta.json"
+        if not mp.exists():
+            continue
+        m = json.loads(mp.read_text())
+        q = m.get("checks", {}).get("quick", {})
+        clean = len(q) == 20 and all(v == "clean" for v in q.values())
+        n += 1; ok += clean
+        res = "all 20 checks exit 0" if clean else ("not run" if not q else str({k: v for k, v in q.items() if v != "clean"}))
+        rows.append(f"| {d.name} | {str(m.get('what', '')).replace('|', '/')[:330]} | {res} |")
+    rows.append(f"\n{ok} of {n} refactorings leave all twenty checks at exit 0 with no VIOLATION line.")
+    return "\n".join(rows)
+
+
+gens = {"proof-status": proof_status, "seeded": seeded, "fixes": fixes, "refactors": refactors}
 s = (V / "DESIGN.md").read_text()
 for name, fn in gens.items():
     pat = re.compile(rf"(<!-- AUTO:{name} -->\n).*?(<!-- /AUTO:{name} -->)", re.S)
